@@ -223,10 +223,31 @@ def _enumerate_gates(circuit: Circuit) -> tp.Dict[Label, int]:
     result: tp.Dict[Label, int] = dict()
     for input_label in circuit.inputs:
         result[input_label] = len(result)
-    for gate_label, gate_ in circuit.gates.items():
-        if gate_.gate_type == gate.INPUT:
-            continue
-        result[gate_label] = len(result)
+    # The decoder rejects references to gates that were not decoded yet, so
+    # identifiers are assigned operands first (keeping the storage order
+    # whenever it already is a valid one).
+    in_progress: tp.Set[Label] = set()
+    for gate_label in circuit.gates:
+        stack = [gate_label]
+        while stack:
+            label = stack[-1]
+            if label in result:
+                stack.pop()
+                continue
+            pending = [
+                operand
+                for operand in circuit.get_gate(label).operands
+                if operand not in result
+            ]
+            if not pending:
+                result[label] = len(result)
+                in_progress.discard(label)
+                stack.pop()
+            elif label in in_progress:
+                raise CircuitEncodingError("Tried to encode a cyclic circuit")
+            else:
+                in_progress.add(label)
+                stack.extend(pending)
     return result
 
 
